@@ -740,3 +740,33 @@ def tt_eval(e, atom, inl=None, depth=0):
     if k == "Call" and e.get("cname") in ("move", "forward") and e.get("args"):
         return tt_eval(e["args"][0], atom, inl, depth)
     return None
+
+
+def root_views(fns):
+    """[(function, body with non-public void helpers of its class seen through)] for the functions that are not themselves such
+    helpers: the unit at which "what does this operation do" rules look at the code, so that moving statements into a private
+    helper or back does not change what they see"""
+    by_pat = {f["pat"]: f for f in fns.values()}
+    sl = struct_like(by_pat)
+    helper = set()
+    for f in fns.values():
+        if not f.get("rect") or f.get("body") is None:
+            continue
+
+        def hv(n, f=f):
+            if n.get("k") == "Expr" and isinstance(strip(n.get("e")), dict) and strip(n["e"]).get("k") == "Call":
+                c = strip(n["e"])
+                cal = by_pat.get(c.get("cpat"))
+                if cal is not None and cal is not f and cal.get("body") is not None and cal.get("rect") == f.get("rect") and cal.get("ret") == "void" \
+                        and len(cal.get("params", [])) == len(c.get("args", [])) and (c.get("obj") is None or strip(c["obj"]).get("k") == "This") \
+                        and (cal.get("access", 2) != 0 or cal.get("rect") in sl):
+                    helper.add(cal["pat"])
+        walk(f["body"], hv)
+    out = []
+    for pat, f in sorted(fns.items()):
+        if f.get("body") is None:
+            continue
+        if f["pat"] in helper:
+            continue
+        out.append((f, inlined_body(f, by_pat, depth=3) if f.get("rect") else f["body"]))
+    return out
